@@ -9,7 +9,8 @@ pub const NEAR_KEYWORD_NAMES: &[&str] = &[
     "enumerate", "constant", "interfaces", "parcelables", "package_", "outer", "CharSequences", "f", "e1",
 ];
 pub const PACKAGES: &[&[&str]] = &[&["a"], &["a", "b"], &["p", "q"], &["other", "pkg"], &["pkg"], &["a", "xpkg"], &["ab"]];
-pub const ITEM_NAMES: &[&str] = &["Foo", "XFoo", "FooX", "Bar", "IFoo", "Foo2"];
+// `Array` is also the synthetic name the tree gives to array types
+pub const ITEM_NAMES: &[&str] = &["Foo", "XFoo", "FooX", "Bar", "IFoo", "Foo2", "Array"];
 pub const BUILTIN_SIMPLE: &[&str] = &["IBinder", "FileDescriptor", "ParcelFileDescriptor", "ParcelableHolder"];
 pub const BUILTIN_QUALIFIED: &[&str] = &[
     "android.os.IBinder",
@@ -215,7 +216,9 @@ pub fn gen_method(rng: &mut Rng, cfg: &DocCfg, pool: &TypePool) -> MethodDoc {
         args_trailing_comma: rng.chance(1, 5),
         code: match rng.below(16) {
             0 | 1 => Some(format!("{}", rng.below(4))),
-            2 | 3 => Some(format!("00{}", rng.below(4))),
+            2 => Some(format!("00{}", rng.below(4))),
+            // zero-padded beyond the length of u32::MAX: the value still fits
+            3 => Some(format!("000000000000{}", rng.below(4))),
             4 => Some((*rng.pick(&["4294967295", "16777214", "16777215", "16777216", "65535", "65536", "2147483647", "2147483648"])).to_owned()),
             // does not fit u32: reported with an Error of its own, the method stays (code absent)
             5 => Some((*rng.pick(&["4294967296", "99999999999", "18446744073709551616"])).to_owned()),
